@@ -95,7 +95,7 @@ def make_chooser():
     """Chooser bound to the current CrossHair state space (imported lazily: replay never imports CrossHair)."""
     import z3
     from crosshair.core import deep_realize, realize
-    from crosshair.libimpl.builtinslib import PreciseIeeeSymbolicFloat, SymbolicBool, SymbolicInt
+    from crosshair.libimpl.builtinslib import RealBasedSymbolicFloat, SymbolicBool, SymbolicInt
     from crosshair.statespace import context_statespace
     from crosshair.tracers import NoTracing, ResumedTracing
     from crosshair.util import IgnoreAttempt
@@ -134,7 +134,13 @@ def make_chooser():
 
         def sym_float(self, name):
             with NoTracing():
-                v = PreciseIeeeSymbolicFloat(self._name(name), float)
+                # finite reals stand in for JSON numbers (JSON has no NaN/inf): exact IEEE symbols make z3 time out
+                # on int==float comparisons.  CrossHair caps results at UNKNOWN for real-based floats because float
+                # *arithmetic* would be approximated; our leaves are only compared/inspected, so the cap is lifted
+                # here (any float arithmetic in the code under test re-instates it).
+                cap = self.space.status_cap
+                v = RealBasedSymbolicFloat(self._name(name), float)
+                self.space.status_cap = cap
                 self._syms[len(self.trace)] = v
                 self.trace.append([name, None])
                 return v
